@@ -25,5 +25,6 @@ InitAbsent == [ex |-> FALSE, ls |-> <<>>]
 InitEmpty  == [ex |-> TRUE,  ls |-> <<>>]
 InitHeader == [ex |-> TRUE,  ls |-> <<"H">>]
 InitRows   == [ex |-> TRUE,  ls |-> <<"H", "a">>]
+InitForeign == [ex |-> TRUE,  ls |-> <<"X", "q">>]
 InitOther  == [ex |-> TRUE,  ls |-> <<"H", "z">>]
 =============================================================================
